@@ -172,6 +172,10 @@ func (c *compiler) evalUserFunction(node *userFunction, args []ast.Expression) (
 	octx := c.ctx
 	defer func() { c.ctx = octx }()
 
+	if len(args) < len(node.Parameters) {
+		return nil, fmt.Errorf("too few arguments in call to function (%d for %d)", len(args), len(node.Parameters))
+	}
+
 	c.ctx = c.ctx.New()
 	for i, p := range node.Parameters {
 		a := args[i]
